@@ -38,7 +38,7 @@ def dyadic_utpm(rng, D, P, shp, nz=False):
 
 
 def check_mutation(rep, algopy, rng, tier):
-    per_op = 3 if tier == 'quick' else 30
+    per_op = 6 if tier == "quick" else 30
     for nm, op in sorted(ops.ops_for(PID).items()):
         for _ in range(per_op):
             case = op.gen(rng, Dmax=5, Pmax=2)
